@@ -143,19 +143,44 @@ fn lattice() -> &'static Vec<i128> {
 }
 
 /// Encodings of integer n: widths 0,1,2,4,8 that can hold it, and the bignum form (width code 16).
-const WIDTHS: [u8; 6] = [0, 1, 2, 4, 8, 16];
+/// 17 and 18 are bignum spellings the CBOR library does *not* read as integers (tag 2/3 over an
+/// indefinite-length byte string; over a byte string zero-padded to 17 bytes): the crate need not
+/// take them — but if it does, only exactly and in range.
+const WIDTHS: [u8; 8] = [0, 1, 2, 4, 8, 16, 17, 18];
 
 fn int_bytes(n: i128, w: u8) -> Option<Vec<u8>> {
     let (major, arg) = if n >= 0 { (0u8, n as u64) } else { (1u8, (-1 - n) as u64) };
     let mut out = vec![];
-    if w == 16 {
+    if w >= 16 {
         let mut be = arg.to_be_bytes().to_vec();
         while be.first() == Some(&0) {
             be.remove(0);
         }
         out.push(if major == 0 { 0xc2 } else { 0xc3 });
-        head_w(&mut out, 2, be.len() as u64, 0);
-        out.extend_from_slice(&be);
+        match w {
+            16 => {
+                head_w(&mut out, 2, be.len() as u64, 0);
+                out.extend_from_slice(&be);
+            }
+            17 => {
+                // chunked: the significant bytes in one chunk (two when there are several)
+                out.push(0x5f);
+                let cut = be.len() / 2;
+                for part in [&be[..cut], &be[cut..]] {
+                    if !part.is_empty() {
+                        head_w(&mut out, 2, part.len() as u64, 0);
+                        out.extend_from_slice(part);
+                    }
+                }
+                out.push(0xff);
+            }
+            _ => {
+                let mut padded = vec![0u8; 17 - be.len().min(17)];
+                padded.extend_from_slice(&be);
+                head_w(&mut out, 2, padded.len() as u64, 0);
+                out.extend_from_slice(&padded);
+            }
+        }
         return Some(out);
     }
     if w < min_width(arg) {
@@ -206,7 +231,7 @@ fn check(p: &Pos, n: i128, w: u8, ctx: &mut Ctx) -> CaseResult {
     let near = lattice().contains(&n);
     if n.abs() >= (1 << 31) || near {
         ctx.nontrivial(hash_str(&format!("{}|{}|{}", p.name, n, w)));
-        ctx.sample_with(|| format!("{} holding {} (head width {}): {}", p.name, n, if w == 16 { "bignum".to_string() } else { w.to_string() }, hex(&bytes)));
+        ctx.sample_with(|| format!("{} holding {} (head width {}): {}", p.name, n, match w { 16 => "bignum".to_string(), 17 => "bignum over chunked bytes".to_string(), 18 => "zero-padded bignum".to_string(), _ => w.to_string() }, hex(&bytes)));
     }
     let in_range = if p.uninterpreted {
         true
@@ -216,6 +241,24 @@ fn check(p: &Pos, n: i128, w: u8, ctx: &mut Ctx) -> CaseResult {
         (i64::MIN as i128..=i64::MAX as i128).contains(&n)
     };
     let got = (p.recode)(&bytes);
+    if w >= 17 {
+        // not an integer of the library's data model: rejection is fine wherever the crate interprets the
+        // position; acceptance only of the exact in-range value (uninterpreted positions keep the tag)
+        if p.uninterpreted {
+            return Ok(());
+        }
+        ctx.class("expect:unfolded-bignum");
+        return match got {
+            Err(_) => Ok(()),
+            Ok(out) => {
+                ensure!(in_range, "{}: integer {} outside the supported range, spelled as an unfolded bignum, accepted ({})", p.name, n, hex(&bytes));
+                let out = out.map_err(|e| format!("{}: value holding {} failed to re-encode: {:?}", p.name, n, e))?;
+                let read = read_strict(&out).map_err(|e| format!("{}: re-encoding not strict CBOR ({:?}): {}", p.name, e, hex(&out)))?;
+                ensure!(eq_mod_map_order(&read, &item), "{}: integer {} spelled as an unfolded bignum ({}) decoded and re-encoded as {}", p.name, n, hex(&bytes), crate::cbor::diag(&read));
+                Ok(())
+            }
+        };
+    }
     if !in_range {
         ctx.class("expect:out-of-range");
         return match got {
@@ -326,7 +369,7 @@ fn case(g: &mut Gen, ctx: &mut Ctx) -> CaseResult {
     let ps = positions();
     let p = &ps[g.below(ps.len())];
     let arg = if n >= 0 { n as u64 } else { (-1 - n) as u64 };
-    let legal: Vec<u8> = WIDTHS.iter().copied().filter(|w| *w == 16 || *w >= min_width(arg)).collect();
+    let legal: Vec<u8> = WIDTHS.iter().copied().filter(|w| *w >= 16 || *w >= min_width(arg)).collect();
     let w = *g.pick(&legal);
     ctx.class("gen:random");
     check(p, n, w, ctx)?;
